@@ -26,7 +26,7 @@ ASSUMPTIONS = ["the sub-project task has only FS/SS inputs (FF/SF inputs could h
 LEVEL_TEXT = "Seeded exploration over sub-project results, unit pairs, positions in the parent workflow and parent absences."
 LEVEL_NOTE = "Trusted: harness observers, the ceil() reference formula; sampling evidence only."
 PROBES = ["configured_ok", "refusal_unsimulated", "refusal_failed", "remove_abs_true", "sub_with_absence", "sub_absence_beyond_end",
-          "unit_ratio_gt1", "unit_ratio_lt1", "unit_ratio_non_integer", "parent_absence_during_subtask", "subtask_finished", "with_predecessor", "configured_twice"]
+          "unit_ratio_gt1", "unit_ratio_lt1", "unit_ratio_non_integer", "parent_absence_during_subtask", "subtask_finished", "with_predecessor", "configured_twice", "sub_from_backward_simulation", "parent_json_roundtrip"]
 
 UNITS = [60, 120, 180, 420, 600, 1200, 3600, 86400, 129600]
 
@@ -66,7 +66,10 @@ def gen(rng, tier):
     pcfg = G.gen_cfg(rng, pp, max_time=None)
     pcfg["max_time"] = 2500
     pcfg["auto_flag"] = rng.random() < 0.25
-    return {"sub": {"model": subm, "cfg": subcfg, "ranks": G.gen_ranks(rng, subm), "file": "mem:sub.json", "simulate": mode != "unsimulated"},
+    subspec = {"model": subm, "cfg": subcfg, "ranks": G.gen_ranks(rng, subm), "file": "mem:sub.json", "simulate": mode != "unsimulated"}
+    if mode == "ok" and rng.random() < 0.2:
+        subspec["backward"] = {"due": False, "reverse": True}  # the sub-project result comes from a backward simulation
+    return {"sub": subspec, "parent_json": rng.random() < 0.25,
             "preconfigure": preconf, "mode": mode, "model": pm, "cfg": pcfg, "ranks": G.gen_ranks(rng, pm), "profile": pp}
 
 
@@ -138,7 +141,9 @@ def run(spec):
     res.count("configured_ok")
     d_sub = sp.time
     L = sub["cfg"].get("absence", [])
-    inrange = set(a for a in L if 0 <= a < d_sub)
+    inrange = set(a for a in L if 0 <= a < d_sub)  # (mirroring a backward result keeps the number of in-range absence steps)
+    if sub.get("backward") is not None:
+        res.count("sub_from_backward_simulation")
     if L:
         res.count("sub_with_absence")
     if any(a >= d_sub for a in L):
@@ -153,6 +158,17 @@ def run(spec):
     us, up = sub["model"].get("unit_s", 60), model.get("unit_s", 60)
     if task.unit_timedelta.total_seconds() != us:
         res.add("unit", "C20.unit_timedelta", "task.unit_timedelta=%r, sub-project unit is %ds" % (task.unit_timedelta, us), None)
+    if spec.get("parent_json"):
+        # the configured parent is saved and loaded before the unit times are related
+        res.count("parent_json_roundtrip")
+        newp, ow, orr = scen.save_load(p, "mem:parent.json", spec.get("ranks"))
+        if newp is None:
+            bad = ow if not ow.ok else orr
+            res.add("parent_json", "C20.parent_json_roundtrip_raises.%s@%s" % (bad.exc_type, bad.where), "saving/loading the configured parent raised %s" % bad.msg, None)
+            res.digest = "pjson"
+            return res
+        p = newp
+        task = [t for t in p.workflow.task_list if t.ID == "sub"][0]
     D.call(lambda: task.set_work_amount_progress_of_unit_step_time(p.unit_timedelta))
     if up > us:
         res.count("unit_ratio_gt1")
